@@ -422,10 +422,17 @@ def bytes_method(ex, recv, name, args, kwargs, st):
         st.fact((r == 0) == z3.Not(z3.Contains(s, args[0].z)))
         ex.assumed.add("bytes.count(sub): uninterpreted, 0 <= count*len(sub) <= len, count == 0 iff sub not in s")
         return VInt(r)
-    if name == "strip":
+    if name in ("strip", "lstrip", "rstrip"):
         from . import regexlib
 
-        return regexlib.strip_model(ex, recv, args, st)
+        return regexlib.strip_model(ex, recv, args, st, {"strip": "both", "lstrip": "left", "rstrip": "right"}[name])
+    if name in ("isdigit", "isalpha", "isspace") and not args:
+        # bytes only: the ASCII classes, exactly (str would need the Unicode tables)
+        if recv.kind != "bytes":
+            raise Unsupported(f"str.{name} (Unicode classes are not modelled)")
+        rng_ = {"isdigit": z3.Range("0", "9"), "isalpha": z3.Union(UPPER, LOWER),
+                "isspace": z3.Union(*[z3.Re(z3.StringVal(c)) for c in " \t\n\r\x0b\x0c"])}[name]
+        return VBool(sop(ex, st, name.upper(), [s], B, lambda: z3.InRe(s, z3.Plus(rng_))))
     if name in ("split", "rsplit", "splitlines", "join", "decode", "encode", "hex"):
         from . import regexlib
 
